@@ -6,7 +6,9 @@
    update / cancel producer, v1 delegate votes and their cancellation, deposit
    top-up and return, pending -> active after 6 confirmations, deposit release
    after the lock-up, last-block time, RevertToPOW / RevertToDPOS and the switch
-   back to DPOS (consensus mode), the irreversibility bookkeeping).  All
+   back to DPOS (consensus mode), the irreversibility bookkeeping, emergency
+   inactivity / activation request / reactivation, illegal evidence with
+   penalties).  All
    other kinds are covered by the differential oracle of harness/cmd/c21 on
    the real code only (level: partial). *)
 From Coq Require Import ZArith NArith List Bool.
@@ -14,13 +16,16 @@ From ELA Require Import lib.History proof.C20_History model.C21_Dpos proof.C21_D
 Import ListNotations.
 Local Open Scope Z_scope.
 
-(* change_discipline: a block's change list that passes the computable check
-   [disciplined] at the pre-block state s (undo lists assign pre-block values
-   to assigned locations and negate the additive updates of the do list; do
-   lists touch only what the undo lists restore) is undone exactly by the
-   forward-order rollback of utils.History. *)
-Theorem C21_change_discipline : forall (P : params) (s : vec) (cs : list dchg),
-  forallb (disciplined P s) cs = true -> undos cs (dos cs s) = s.
+(* change_discipline: the per-coordinate condition under which the
+   forward-order rollback of utils.History is exact.  A block's change list
+   passes [changes_disciplined] at the pre-block state s when for every
+   coordinate j, over all do lists D and undo lists U of the block in order:
+   nothing targets j; or the last primitive of U targeting j assigns s[j]; or
+   only additions target j and they sum to zero over D and U; or j is targeted
+   by one addition p >= 0 in D and one saturating subtraction of p in U and
+   s[j] >= 0.  Then undoing right after executing gives s back. *)
+Theorem C21_change_discipline : forall (s : vec) (cs : list dchg),
+  changes_disciplined s cs = true -> undos cs (dos cs s) = s.
 Proof. exact change_discipline. Qed.
 Print Assumptions C21_change_discipline.
 
@@ -55,6 +60,41 @@ Theorem C21_rollback_eq_direct_refuted :
   blocks_okb wP (w_blocks1 ++ w_blocks2) (init wP) = false.
 Proof. exact cancel_in_activation_block_refuted. Qed.
 Print Assumptions C21_rollback_eq_direct_refuted.
+
+(* Inactive / illegal producers.  The += / -= (emergency inactivity, with the
+   saturating revert) and += / = ori (illegal evidence) updates of
+   producer.penalty meet the condition when the illegal evidence is the last
+   change of the block touching the penalty, and violate it otherwise: with a
+   prior penalty of 500, [inactive; illegal] rolls back to 500, [illegal;
+   inactive] to 0.  Replayed on the real code (corpus traces penalty-mix and penalty-mix-reversed). *)
+Theorem C21_penalty_mix_refuted :
+  penalty_after_rollback [TInactive 0; TIllegal 0] = Some 500 /\
+  penalty_after_rollback [TIllegal 0; TInactive 0] = Some 0.
+Proof. exact penalty_mix_refuted. Qed.
+Print Assumptions C21_penalty_mix_refuted.
+
+(* revertSettingInactiveProducer restores constants (inactiveSince = 0,
+   activateRequestHeight = MaxUint32, removal from EmergencyInactiveArbiters):
+   the second inactivity of a producer is not disciplined and does not roll
+   back exactly.  Replayed on the real code (corpus:inactive-after-reactivation). *)
+Theorem C21_inactive_again_refuted :
+  rollback_agrees iPar i_prefix [Block 26 1026 [TInactive 0]] = false /\
+  blocks_okb iPar (i_prefix ++ [Block 26 1026 [TInactive 0]]) (init iPar) = false.
+Proof. exact inactive_again_refuted. Qed.
+Print Assumptions C21_inactive_again_refuted.
+
+(* ... while a first inactivity, the activation request and the reactivation
+   are disciplined (so C21_rollback_eq_direct_partial applies) and roll back
+   exactly; the penalty 500 stays, inactiveSince = 17, request height 18. *)
+Example C21_inactive_nonvacuous :
+  blocks_okb iPar i_prefix (init iPar) = true /\
+  rollback_agrees iPar (firstn 7 i_prefix) (skipn 7 i_prefix) = true /\
+  match process_all iPar i_prefix (init iPar) with
+  | Some st => get (snd st) (iP 0 fSt) = stActive /\ get (snd st) (iP 0 fPenalty) = 500 /\
+               get (snd st) (iP 0 fInactiveSince) = 17 /\ get (snd st) (iP 0 fActReq) = 18
+  | None => False
+  end.
+Proof. exact inactive_first_time_ok. Qed.
 
 (* Non-vacuity: 13 blocks with every modelled transaction kind and the
    irreversibility bookkeeping active satisfy the hypotheses; the rollback of
